@@ -202,3 +202,17 @@ PROPS["C16"] = {
              {"name": "2d-subsets-trk", "src": "h_codec.c", "variant": "trk", "args": ["--mode", "subsets", "--codecs", "2d"]}],
     "budget": {"quick": 600, "thorough": 5400},
 }
+
+PROPS["C09"] = {
+    "level": "model_checking",
+    "claim": "cross product (not pairwise) of k, n-k in {0,1,2,3,limit-1,limit,limit+1,2^31-1,2^31,2^32-1 (and the value wrapping n to 0)}, length in {0,1,2,7,8,9,1024,65536,2^32-1}, m in {0,1,3,4,5,7,8,9,16,65535}, N1 in {0..4,r-1,r,r+1,255}, seed in {-2^31,-1,0,1,2,2^31-2,2^31-1}, three roles, codecs 1,2,3: each tuple is one contained execution (crash / hang reported with the tuple); inside the advertised limits => OK followed by a functional encode/decode cycle (RS repair symbols compared with the reference generator), outside => error status; plus every single-argument corruption named by the property (NULL session, ESI out of range, wrong role) of every encoding/decoding/query entry point on 8 sessions x 3 roles: error status, sources untouched, session still completes a normal encode/decode",
+    "technique": "exhaustive enumeration of a boundary-value cross product and of all single-argument corruptions on the real API, each execution contained in a supervised worker",
+    "rule": "one tuple / one (session, corruption) pair per execution; all distinct",
+    "bounds": {"quick": "grid as in the claim (accepted shapes with n>10000 only for two lengths, one role), trk variant; corruptions under ASan", "thorough": "full grid, also under ASan"},
+    "assumptions": ["functional cycle skipped when n*length > 64 MiB or length > 65536 (acceptance and release still checked)", "known finding: codec 2 accepts n > 2^m-1 (see known_findings.txt)"],
+    "runs": [{"name": "grid-trk", "src": "h_param.c", "variant": "trk", "args": ["--mode", "grid"]},
+             {"name": "args-asan", "src": "h_param.c", "variant": "asan", "args": ["--mode", "args"]},
+             {"name": "args-trk", "src": "h_param.c", "variant": "trk", "args": ["--mode", "args"]},
+             {"name": "grid-asan", "src": "h_param.c", "variant": "asan", "args": ["--mode", "grid"], "tiers": ("thorough",)}],
+    "budget": {"quick": 600, "thorough": 3600},
+}
